@@ -180,7 +180,7 @@ def include_graphs(ctx, n):
         # a quote-free special character, the name of the hidden standard file)
         names = ['a', 'b', 'c', 'd']
         if r.random() < 0.3:
-            odd = ['', ' ', 'A', 'a/b.theo', '..', '-', '__standards__', 'a b', 'ä', '0']
+            odd = ['', ' ', 'A', 'a/b.theo', '..', '-', '__standards__', 'a b', 'ä', '0', 'a\nb', '\n']
             for j in r.sample(range(4), r.randint(1, 2)):
                 cand = r.choice(odd)
                 if cand not in names:
@@ -337,6 +337,44 @@ def corr_lex(ctx, inputs):
                           {'buffer_hex': inputs[i].hex()})
             break
     return a, b
+
+
+def edit_sessions(ctx, n):
+    """sessions of an editor: the same include graph (two or three levels deep) scanned again and again in ONE process while
+    single files are edited, removed and restored between the calls.  Returns a list of sessions, each a list of (main, files)."""
+    r = ctx.rnd
+    out = []
+    for k in range(n):
+        depth = 2 if k == 0 else r.randint(2, 3)
+        names = [b'm', b'a', b'b', b'c'][:depth + 1]
+        files = {}
+        for i, nm in enumerate(names):
+            body = b'v%d := %d ;\n' % (i, i + 1)
+            files[nm] = (b'include "' + names[i + 1] + b'"\n' if i + 1 < len(names) else b'limit := 1 ;\n') + body
+        if k > 0 and r.random() < 0.4:
+            files[b'm'] += b'include "' + names[-1] + b'"\n'           # diamond: the leaf also directly from the main file
+        sess = [(b'm', dict(files))]
+        cur = dict(files)
+        steps = ['edit-leaf', 'remove-leaf', 'restore-leaf', 'edit-mid', 'edit-leaf'] if k == 0 else [r.choice(['edit-leaf', 'remove-leaf', 'restore-leaf', 'edit-mid', 'edit-main', 'same', 'leaf-includes-missing', 'leaf-includes-main']) for _ in range(r.randint(3, 7))]
+        for st in steps:
+            leaf, mid = names[-1], names[-2]
+            if st == 'edit-leaf':
+                cur[leaf] = b'// edited\nlimit := %d ;\nextra := 0 ;\n' % r.randint(2, 99)
+            elif st == 'remove-leaf':
+                cur.pop(leaf, None)
+            elif st == 'restore-leaf':
+                cur[leaf] = files[leaf]
+            elif st == 'edit-mid':
+                cur[mid] = b'\n' * r.randint(0, 2) + files[mid] + b'w := %d ;\n' % r.randint(0, 9)
+            elif st == 'edit-main':
+                cur[b'm'] = files[b'm'] + b'// c\nq := %d\n' % r.randint(0, 9)
+            elif st == 'leaf-includes-missing':
+                cur[leaf] = b'include "gone%d"\nlimit := 3 ;\n' % r.randint(0, 2)
+            elif st == 'leaf-includes-main':
+                cur[leaf] = b'include "m"\nlimit := 4 ;\n'
+            sess.append((b'm', dict(cur)))
+        out.append(sess)
+    return out
 
 
 def corr_scan(ctx, cases):
